@@ -1,12 +1,16 @@
 (* C02/Examples.v — non-vacuity: concrete configurations, bits and scripts that
    satisfy the hypotheses of the theorems and reach every phase. *)
-From XV Require Import lib.Bytes gen.NegTables C02.Model C02.Frame C02.Phase C02.Adv C02.Proofs.
+From XV Require Import lib.Bytes gen.NegTables C02.Model C02.Frame C02.Phase C02.Adv C02.Inter C02.Proofs.
 
 Definition dom : bytes := str "example.net".
-Definition cfg_ok : config := mkCfg [starttls_feature; sasl_feature; bind_feature] true dom.
-Definition cfg_bad_hs : config := mkCfg [starttls_feature; sasl_feature; bind_feature] false dom.
+Definition loc : bytes := str "srv.example.net".
+Definition orig : bytes := str "me@example.net".
+Definition cfg_ok : config := mkCfg [starttls_feature; sasl_feature; bind_feature] true dom loc orig.
+Definition cfg_bad_hs : config := mkCfg [starttls_feature; sasl_feature; bind_feature] false dom loc orig.
 
-Definition hdr := mkItem false (PHeader HGood).
+Definition hattr (id : bytes) (lang : option bytes) : hattrs :=
+  mkH (Some id) (Some str_version) lang (Some ns_client) (Some loc) (Some orig).
+Definition hdr := mkItem false (PHeader (hattr (str "s1") (Some (str "en")))).
 Definition fl (cs : list fchild) := mkItem false (PFeatures cs).
 Definition c_tls (req : bool) := FC ns_StartTLS ft_starttls_local req false.
 Definition c_sasl := FC ft_sasl_space ft_sasl_local true false.
@@ -62,7 +66,7 @@ Proof. vm_compute. auto. Qed.
 
 (* one StartTLS(nil) value, three sessions with different domains *)
 Definition sess_for (d : bytes) : sess :=
-  mkSess false (mkCfg [starttls_feature; sasl_feature; bind_feature] true d) 0%N
+  mkSess false (mkCfg [starttls_feature; sasl_feature; bind_feature] true d loc orig) 0%N
          [hdr; fl [c_tls true]; proceed] [hdr; fl []] [] [ns_StartTLS].
 Example ex_reuse :
   map (fun r => server_names (trace r)) (run_sessions None [sess_for (str "a.example"); sess_for (str "b.example"); sess_for (str "c.example")])
@@ -90,3 +94,27 @@ Example ex_features_accumulate_without_restart :
   let r := run false cfg_ok None 0%N [hdr; fl [c_tls true; c_roster]; failure] [] [] [ns_StartTLS] in
   m_adv (r_state r) = [str "urn:xmpp:features:rosterver"; ns_StartTLS].
 Proof. vm_compute. reflexivity. Qed.
+
+(* a protected header that omits xml:lang: In() reports no language, not the clear-text one;
+   one that omits the id or the version is refused *)
+Definition hdr_nolang := mkItem false (PHeader (hattr (str "s2") None)).
+Definition hdr_noid := mkItem false (PHeader (mkH None (Some str_version) None (Some ns_client) (Some loc) (Some orig))).
+Definition hdr_nover := mkItem false (PHeader (mkH (Some (str "s2")) None None (Some ns_client) (Some loc) (Some orig))).
+Example ex_info_from_protected_header :
+  let r := run false cfg_ok None 0%N [hdr; fl [c_tls true]; proceed] [hdr_nolang; fl []] [] [ns_StartTLS] in
+  r_class r = ROk /\ n_id (m_info (r_state r)) = str "s2" /\ n_lang (m_info (r_state r)) = [] /\
+  n_from (m_info (r_state r)) = loc /\ n_to (m_info (r_state r)) = orig.
+Proof. vm_compute. auto. Qed.
+Example ex_protected_header_without_id_or_version_refused :
+  r_class (run false cfg_ok None 0%N [hdr; fl [c_tls true]; proceed] [hdr_noid; fl []] [] [ns_StartTLS]) = RErr EOther /\
+  r_class (run false cfg_ok None 0%N [hdr; fl [c_tls true]; proceed] [hdr_nover; fl []] [] [ns_StartTLS]) = RErr EOther.
+Proof. vm_compute. auto. Qed.
+
+(* two sessions sharing StartTLS(nil), their negotiator calls interleaved: A, B, B, A, A, B, ... *)
+Example ex_interleaved :
+  let out := sched_run [0; 1; 1; 0; 0; 1; 0; 1; 0; 1] None
+                       (map (start_sess None) [sess_for (str "a.example"); sess_for (str "b.example")]) in
+  fst out = None /\
+  map (fun s => server_names (m_tr (pstate (is_prog s)))) (snd out) = [[str "a.example"]; [str "b.example"]] /\
+  map (fun s => match is_prog s with Done r => r_class r | Running _ => RFuel end) (snd out) = [ROk; ROk].
+Proof. vm_compute. auto. Qed.
